@@ -234,7 +234,10 @@ func c09One(u *U, core []*TS, vals [][]cty.Value, idx []int) {
 			if isEq && !anyDyn {
 				u.Violation("unify.needless-conversion", shape, fmt.Sprintf("Unify[%s](%s) = %#v gives a conversion for input %d which already equals the result", mode, shape, r.ty, i))
 			}
-			if !unsafe && !anyDyn {
+			if !unsafe && (!anyDyn || ts[i].K == 'd') {
+				// (also for an input that is the placeholder itself: a conversion from "any type" to
+				// the result must be one that is offered as safe for that pair; for inputs with nested
+				// placeholders the unifier composes conversions GetConversion does not offer in one step)
 				var g convert.Conversion
 				_, _, pan := callConv(func() (cty.Value, error) { g = convert.GetConversion(tys[i], r.ty); return cty.NilVal, nil })
 				if pan == "" && g == nil && !isEq {
